@@ -58,6 +58,8 @@ struct Stress {
     rewrite: Option<fn(&str) -> String>,
     /// per thread: iterations of an empty loop before its first operation
     delays: Vec<usize>,
+    /// per thread: run the operations through the crate's host API (Rust, no script)
+    host: Vec<bool>,
 }
 
 /// planted mutant 1: `push` as length-read + separate write (`n = size(c); c.resize(n + 1, x)`):
@@ -103,8 +105,14 @@ fn stress_request(s: &Stress, dedupe: bool, max_out: usize) -> String {
             }
         })
         .collect();
+    let host_progs: Vec<Value> = s
+        .progs
+        .iter()
+        .enumerate()
+        .map(|(t, p)| if s.host.get(t).copied().unwrap_or(false) { json!(p.iter().filter_map(|o| o.host_json()).collect::<Vec<_>>()) } else { json!([]) })
+        .collect();
     let spec = json!({"kind": s.init.kind(), "init": s.init.json(), "scripts": scripts, "rounds": s.rounds,
-                      "dedupe": dedupe, "max_out": max_out});
+                      "dedupe": dedupe, "max_out": max_out, "host_progs": host_progs});
     format!("stress {}", kvh::hex(spec.to_string().as_bytes()))
 }
 
@@ -186,7 +194,7 @@ fn gen_small(rng: &mut Rng, map: bool, n_threads: usize, max_ops: usize, rounds:
             let p = (0..n).map(|j| small_map_op(rng, (t as i64 + 1) * 100 + j as i64)).collect();
             progs.push(p);
         }
-        Stress { kind: "small-map", init: St::M(init), progs, rounds, rewrite: None, delays: vec![] }
+        Stress { kind: "small-map", init: St::M(init), progs, rounds, rewrite: None, delays: vec![], host: vec![] }
     } else {
         let init: Vec<i64> = (0..rng.below(4) as i64).collect();
         for t in 0..n_threads {
@@ -194,7 +202,7 @@ fn gen_small(rng: &mut Rng, map: bool, n_threads: usize, max_ops: usize, rounds:
             let p = (0..n).map(|j| small_list_op(rng, (t as i64 + 1) * 100 + j as i64)).collect();
             progs.push(p);
         }
-        Stress { kind: "small-list", init: St::L(init), progs, rounds, rewrite: None, delays: vec![] }
+        Stress { kind: "small-list", init: St::L(init), progs, rounds, rewrite: None, delays: vec![], host: vec![] }
     }
 }
 
@@ -224,7 +232,7 @@ fn gen_big_list(rng: &mut Rng, n_threads: usize, k: usize) -> Stress {
         }
         progs.push(p);
     }
-    Stress { kind: "big-list", init: St::L(vec![]), progs, rounds: 1, rewrite: None, delays: vec![] }
+    Stress { kind: "big-list", init: St::L(vec![]), progs, rounds: 1, rewrite: None, delays: vec![], host: vec![] }
 }
 
 fn check_big_list(s: &Stress, threads: &[Vec<String>], fin: &str) -> Result<Value, String> {
@@ -350,7 +358,7 @@ fn gen_big_map(rng: &mut Rng, n_threads: usize, k: usize) -> Stress {
         }
         progs.push(p);
     }
-    Stress { kind: "big-map", init: St::M(vec![]), progs, rounds: 1, rewrite: None, delays: vec![] }
+    Stress { kind: "big-map", init: St::M(vec![]), progs, rounds: 1, rewrite: None, delays: vec![], host: vec![] }
 }
 
 fn check_big_map(s: &Stress, threads: &[Vec<String>], fin: &str) -> Result<Value, String> {
@@ -489,7 +497,7 @@ fn gen_torn_fill(rng: &mut Rng, n_threads: usize, k: usize) -> Stress {
         }
         progs.push(p);
     }
-    Stress { kind: "torn-fill", init: St::L(vec![0; 24]), progs, rounds: 1, rewrite: None, delays: vec![] }
+    Stress { kind: "torn-fill", init: St::L(vec![0; 24]), progs, rounds: 1, rewrite: None, delays: vec![], host: vec![] }
 }
 
 fn check_torn_fill(s: &Stress, threads: &[Vec<String>], fin: &str) -> Result<Value, String> {
@@ -557,7 +565,7 @@ fn gen_reverse(rng: &mut Rng, n_threads: usize, k: usize) -> Stress {
         }
         progs.push(p);
     }
-    Stress { kind: "reverse-parity", init: St::L((1..=24).collect()), progs, rounds: 1, rewrite: None, delays: vec![] }
+    Stress { kind: "reverse-parity", init: St::L((1..=24).collect()), progs, rounds: 1, rewrite: None, delays: vec![], host: vec![] }
 }
 
 fn check_reverse(s: &Stress, threads: &[Vec<String>], fin: &str) -> Result<Value, String> {
@@ -611,7 +619,7 @@ fn gen_slots(rng: &mut Rng, n_threads: usize, k: usize) -> Stress {
         }
         progs.push(p);
     }
-    Stress { kind: "own-slot", init: St::L(vec![0; n_threads]), progs, rounds: 1, rewrite: None, delays: vec![] }
+    Stress { kind: "own-slot", init: St::L(vec![0; n_threads]), progs, rounds: 1, rewrite: None, delays: vec![], host: vec![] }
 }
 
 fn check_slots(s: &Stress, threads: &[Vec<String>], fin: &str) -> Result<Value, String> {
@@ -765,6 +773,7 @@ fn map_eq_history(rounds: usize) -> Stress {
         rounds,
         rewrite: None,
         delays: vec![],
+        host: vec![],
     }
 }
 
@@ -776,6 +785,7 @@ fn retain_value_history(rounds: usize) -> Stress {
         rounds,
         rewrite: None,
         delays: vec![],
+        host: vec![],
     }
 }
 
@@ -820,7 +830,7 @@ fn gen_vm_reads(rng: &mut Rng, n_threads: usize, k: usize) -> Stress {
         }
         progs.push(p);
     }
-    Stress { kind: "vm-reads", init: St::L((1..=8).collect()), progs, rounds: 1, rewrite: None, delays: vec![] }
+    Stress { kind: "vm-reads", init: St::L((1..=8).collect()), progs, rounds: 1, rewrite: None, delays: vec![], host: vec![] }
 }
 
 fn check_vm_reads(s: &Stress, threads: &[Vec<String>], fin: &str) -> Result<Value, String> {
@@ -942,4 +952,136 @@ fn check_vm_reads(s: &Stress, threads: &[Vec<String>], fin: &str) -> Result<Valu
         return Err(format!("lost update: {} pushes, {} popped + {} remaining", tags.len(), popped.len(), f.len() - 8));
     }
     Ok(json!({"last_was_a_pushed_tag": last_was_tag}))
+}
+
+// ---- host API alphabet (KMap / KList helpers), threads in Rust next to script threads ----------
+
+fn gen_host(rng: &mut Rng, map: bool, n_threads: usize, rounds: usize) -> Stress {
+    let mut progs = vec![];
+    let mut host = vec![];
+    if map {
+        let init: Vec<(i64, i64)> = (0..3).map(|k| (k, k * 10)).collect();
+        for t in 0..n_threads {
+            let n = 1 + rng.below(3);
+            // one thread in three is a script thread, the others use the host API
+            let is_host = t % 3 != 2;
+            let mut p = vec![];
+            for j in 0..n {
+                let k = rng.range(0, 3);
+                let v = (t as i64 + 1) * 100 + j as i64;
+                p.push(match rng.weighted(&[4, 6, 3, 2, 2, 1, 2, 1, 2]) {
+                    0 => Op::Put(k, v),
+                    1 => Op::Rem(k),
+                    2 => if is_host { Op::RemPath(k) } else { Op::Rem(k) },
+                    3 => Op::MGet(k),
+                    4 => Op::Has(k),
+                    5 => Op::MClear,
+                    6 => Op::MSize,
+                    7 => Op::MIsEmpty,
+                    _ => Op::GetI(rng.below(3)),
+                });
+            }
+            progs.push(p);
+            host.push(is_host);
+        }
+        Stress { kind: "host-map", init: St::M(init), progs, rounds, rewrite: None, delays: vec![], host }
+    } else {
+        let init: Vec<i64> = (0..3).collect();
+        for t in 0..n_threads {
+            let n = 1 + rng.below(3);
+            let is_host = t % 3 != 2;
+            let mut p = vec![];
+            for j in 0..n {
+                let v = (t as i64 + 1) * 100 + j as i64;
+                p.push(match rng.weighted(&[5, 6, 2, 1, 1, 2, 1, 2]) {
+                    0 => Op::Push(v),
+                    1 => Op::Pop,
+                    2 => Op::Size,
+                    3 => Op::First,
+                    4 => Op::Last,
+                    5 => Op::Get(rng.below(4)),
+                    6 => Op::Clear,
+                    _ => Op::Snap,
+                });
+            }
+            progs.push(p);
+            host.push(is_host);
+        }
+        Stress { kind: "host-list", init: St::L(init), progs, rounds, rewrite: None, delays: vec![], host }
+    }
+}
+
+// ---- readers that look at several entries in ONE operation vs writers that change several ------
+
+/// The writer flips every entry with ONE operation (map.extend / list.fill / transform / reverse /
+/// sort); the reader compares the container with a MIX of old and new entries (shared container on
+/// the left, on the right, inside a tuple, with `!=`): equal to no state, so every answer must be
+/// false — a `true` is a read that combined two states.
+fn gen_torn_eq(rng: &mut Rng, map: bool, n: usize, rounds: usize) -> Stress {
+    let half = n / 2;
+    if map {
+        let base = if n > 9 { 100 } else { 0 };
+        let keys: Vec<i64> = (0..n as i64).map(|i| base + i).collect();
+        let init: Vec<(i64, i64)> = keys.iter().map(|k| (*k, k * 10)).collect();
+        let new1: Vec<(i64, i64)> = keys.iter().map(|k| (*k, k * 10 + 1)).collect();
+        let new2: Vec<(i64, i64)> = keys.iter().map(|k| (*k, k * 10 + 2)).collect();
+        let mix = |a: &Vec<(i64, i64)>, b: &Vec<(i64, i64)>| -> Vec<(i64, i64)> { a[..half].iter().chain(b[half..].iter()).copied().collect() };
+        let forms = ["lhs", "rhs", "tuple", "tuple_rhs", "ne", "ne_rhs"];
+        let mut readers = vec![];
+        for _ in 0..2 {
+            let f = *rng.pick(&forms);
+            let m = match rng.below(4) {
+                0 => mix(&init, &new1),
+                1 => mix(&new1, &init),
+                2 => mix(&new1, &new2),
+                _ => mix(&init, &new2),
+            };
+            readers.push(if f == "lhs" { Op::MEqTo(m) } else { Op::MEqVia(f, m) });
+        }
+        let progs = vec![readers.clone(), vec![Op::MExtend(new1)], vec![Op::MExtend(new2)], readers];
+        Stress { kind: "torn-eq-map", init: St::M(init), progs, rounds, rewrite: None, delays: vec![0, rng.below(30), rng.below(60), rng.below(30)], host: vec![] }
+    } else {
+        let init: Vec<i64> = (0..n as i64).collect();
+        let (w, new): (Op, Vec<i64>) = match rng.below(4) {
+            0 => (Op::Fill(7), vec![7; n]),
+            1 => (Op::AddAll(1000), init.iter().map(|x| x + 1000).collect()),
+            2 => (Op::Reverse, init.iter().rev().copied().collect()),
+            _ => (Op::Resize(n, 0), init.clone()),
+        };
+        let forms = ["lhs", "rhs", "tuple", "tuple_rhs", "ne_rhs"];
+        let mut readers = vec![];
+        for i in 0..2 {
+            let f = *rng.pick(&forms);
+            let m: Vec<i64> = if i == 0 { init[..half].iter().chain(new[half..].iter()).copied().collect() } else { new[..half].iter().chain(init[half..].iter()).copied().collect() };
+            readers.push(if f == "lhs" { Op::EqTo(m) } else { Op::EqVia(f, m) });
+        }
+        let progs = vec![readers.clone(), vec![w], readers];
+        Stress { kind: "torn-eq-list", init: St::L(init), progs, rounds, rewrite: None, delays: vec![0, rng.below(40), rng.below(20)], host: vec![] }
+    }
+}
+
+// ---- binary operations whose two operands are the SAME shared container, against writers --------
+
+fn same_operand_cases(loops: usize) -> Vec<DeadlockCase> {
+    let reader = |stmt: &str| format!("export run = |c|\n  for i in 0..{}\n    {}\n  ['u']\n", loops, stmt);
+    let lmut = format!("export run = |c|\n  for i in 0..{}\n    c.push(i)\n    c.pop()\n  ['u']\n", loops);
+    let mmut = format!("export run = |c|\n  for i in 0..{}\n    c.insert('k9', i)\n    c.remove('k9')\n  ['u']\n", loops);
+    let l50: Vec<i64> = (0..50).collect();
+    let l = |id: &'static str, stmt: &str| DeadlockCase { id, kind: "l", init: json!(l50), scripts: vec![reader(stmt), lmut.clone(), lmut.clone()] };
+    let m = |id: &'static str, stmt: &str| DeadlockCase { id, kind: "m", init: json!([[1, 10], [2, 20]]), scripts: vec![reader(stmt), mmut.clone(), mmut.clone()] };
+    vec![
+        l("same:l + l", "x = c + c"),
+        l("same:l == l", "x = c == c"),
+        l("same:l != l", "x = c != c"),
+        l("same:l.contains l", "x = c.contains(c)"),
+        l("same:l.extend l", "c.extend(c)\n    c.resize(50, 0)"),
+        l("same:l.swap l", "c.swap(c)"),
+        l("same:(l, l) == (l, l)", "x = (c, c) == (c, c)"),
+        l("same:l.extend l.iter()", "c.extend(c.iter().take(3))\n    c.resize(50, 0)"),
+        m("same:m == m", "x = c == c"),
+        m("same:m != m", "x = c != c"),
+        m("same:m + m", "x = c + c"),
+        m("same:m.extend m", "c.extend(c)"),
+        m("same:m.extend m.keys()", "c.extend(c.keys().take(2))\n    c.remove('k9')"),
+    ]
 }
